@@ -1274,6 +1274,8 @@ class Interp:
         return self.index(base, idx, e)
 
     def index(self, base, idx, node=None):
+        if base is None:
+            self.raise_exc("TypeError", "'NoneType' object is not subscriptable", node)
         if hasattr(base, "v_index"):
             return base.v_index(idx, self)
         if isinstance(idx, slice):
